@@ -76,6 +76,9 @@ def gen(rng, tier):
                     yield {"family": "shutdown.%s.%s" % (name, activity), "backend": be, "phase": "shutdown", "script": name, "activity": activity, "rep": rep}
             for k in range(2):
                 yield {"family": "state", "backend": be, "phase": "state", "script": "complete", "activity": "two_conns", "rep": rep * 10 + k}
+            # ... also when the lifespan application stored nothing, or there is no lifespan support at all
+            yield {"family": "state.empty", "backend": be, "phase": "state", "script": "complete_empty", "activity": "two_conns", "rep": rep}
+            yield {"family": "state.no-lifespan", "backend": be, "phase": "state", "script": "raise_before_receive", "activity": "two_conns", "rep": rep}
 
 
 REQ = b"GET /t%d HTTP/1.1\r\nHost: h\r\n\r\n"
@@ -85,7 +88,8 @@ def run_one(case, tally):
     findings = []
     be = case["backend"]
     phase = case["phase"]
-    scripts = _startup_scripts() if phase == "startup" else _shutdown_scripts()
+    scripts = _startup_scripts() if phase in ("startup", "state") else _shutdown_scripts()
+    scripts = dict(scripts, complete_empty=[["recv"], ["send", {"type": "lifespan.startup.complete"}], ["recv"], ["send", {"type": "lifespan.shutdown.complete"}]])
     apps = {
         "lifespan": scripts.get(case["script"], LS_OK),
         "default": [["recv_until_end"], ["respond", 200, [(b"content-length", b"2")], b"ok"]],
@@ -260,7 +264,7 @@ def run_one(case, tally):
         else:
             for p in ("/mutate", "/t2", "/t3"):
                 st = snaps[p][0]
-                if not isinstance(st, dict) or st.get("from_lifespan") != "L":
+                if case["script"] == "complete" and (not isinstance(st, dict) or st.get("from_lifespan") != "L"):
                     findings.append({"clause": "state-isolation", "sig": "C14.state/lifespan-state-missing", "backend": be,
                                      "detail": "scope state of %s is %r; the lifespan application had set from_lifespan" % (p, st)})
                 if p != "/mutate" and isinstance(st, dict) and "x" in st:
